@@ -13,7 +13,7 @@ open Lunar
 /-- TABLE FACT (complete enumeration): in every lunar year 0..9998 except the five D4 years {8,23,24,236,239}
 consecutive months abut, have 29 or 30 days, the year has 12 months or 13 with a leap month ≤ 12, the next
 year starts the day after the last month ends, and the year is 353–355 or 383–385 days long. -/
-theorem C03_tiles_fact : Packed.adjRec 512 yearPair Gen.monthsChunks = true := years_tile_fact
+theorem C03_tiles_fact : Packed.adjRec 1024 yearPair Gen.monthsChunks = true := years_tile_fact
 
 /-- The same, as a statement about the extracted ephemeris (what the generic theorems consume). -/
 theorem C03_tiles (y : Nat) (hy : y ≤ 9998) (hb : badYear y = false) : TilesYear realEph y :=
